@@ -1,11 +1,21 @@
 #!/bin/bash
-# usage: try_seed.sh <patch.diff> <Cxx> [tier]   — applies the patch to /repo, runs the check, reverts.
-set -u
-P="$1"; ID="$2"; TIER="${3:-quick}"
-cd /repo || exit 2
-[ -n "$(git status --porcelain)" ] && { echo "repo dirty"; exit 2; }
-git apply "$P" || exit 2
-/verif/checks/run "$ID" "$TIER" > /tmp/try_seed.out 2>&1; rc=$?
-git -C /repo checkout -q -- .
-grep -E '^(VIOLATION|INCONCLUSIVE|UNCONFIRMED|KNOWN-FINDING|C[0-9]+ )' /tmp/try_seed.out | cut -c1-300 | head -8
-echo "exit=$rc"
+# try_seed.sh <seed|-> <prop> <pkg> <fn> <args-json> : one case against a worktree with the seed applied ("-" = unchanged tree)
+seed=$1; prop=$2; pkg=$3; fn=$4; args=$5
+spec=/tmp/try_$$.json
+python3 - "$prop" "$pkg" "$fn" "$args" > $spec <<'PY'
+import json,sys
+d=json.load(open('/verif/checks/%s.json'%sys.argv[1]))
+d['cases']={'quick':[{'pkg':sys.argv[2],'fn':sys.argv[3],'args':json.loads(sys.argv[4])}]}
+d['reach_required']=[]
+print(json.dumps(d))
+PY
+if [ "$seed" = "-" ]; then
+  VERIF_EVIDENCE_DIR=/tmp/seed_evidence timeout 1500 /verif/.work/gosx check $spec quick 2>&1 | cut -c1-${W:-300} | tail -${N:-4}
+else
+  WT=/tmp/seedwt_try_$$; git -C /repo worktree add -q --detach $WT HEAD
+  p=/verif/seeded/$seed/patch.diff; [ -f /verif/seeded/$seed/patch.rebased.diff ] && p=/verif/seeded/$seed/patch.rebased.diff
+  git -C $WT apply $p || echo "APPLY FAILED"
+  VERIF_REPO=$WT VERIF_EVIDENCE_DIR=/tmp/seed_evidence timeout 1500 /verif/.work/gosx check $spec quick 2>&1 | cut -c1-${W:-300} | tail -${N:-4}
+  git -C /repo worktree remove --force $WT
+fi
+rm -f $spec
